@@ -36,7 +36,7 @@ Bad == {"garbage", "truncated", "wrongtype", "undeftype", "malformed"}
 Kinds == {"msg", "end"} \cup Resp \cup Bad
 
 Init == /\ frames \in UNION {[1..n -> Kinds] : n \in 0..MaxFrames}
-        /\ mode \in {"unary", "stream"}
+        /\ mode \in {"unary", "stream", "oneway"}      \* oneway: the caller sends its request and does not look at the channel again
 Next == UNCHANGED vars
 Spec == Init /\ [][Next]_vars
 
@@ -65,7 +65,9 @@ StreamFinal(fr) ==
          [] fr[last.at] \in Resp -> fr[last.at]                  \* the response was kept when it ended the stream
          [] OTHER -> Final(fr, last.at + 1)                      \* after the end marker: read on
 
-Outcome == IF mode = "unary" THEN Final(frames, 1) ELSE StreamFinal(frames)
+Outcome == CASE mode = "unary" -> Final(frames, 1)
+             [] mode = "stream" -> StreamFinal(frames)
+             [] OTHER -> "sent"                                   \* whatever the server writes: the request was sent
 
 \* ------------------------------------------------------------- properties
 \* position of the frame that decided an OK outcome
